@@ -259,13 +259,14 @@ PROPS["C01"] = dict(
                "reachability along optimisation histories is C06/C20 (the optimiser only keeps scored states)"],
 )
 PROPS["C03"] = dict(
-    level="other", units=["state", "pairs", "geom"], kani=[], lemmas=["lj-symmetric-like", "lj-symmetric"],
+    level="other", units=["state", "pairs", "geom"], kani=[], lemmas=["lj-symmetric-like", "lj-symmetric", "lj-shells"],
     explanation="Unbounded (Verus) on the real code: the WHOLE real PotentialState::score (iterator loops desugared by rule R16) equals -(sum over unordered in-cell pairs E(i,j) + 1/2 * sum over i, j and the 3-shell images t of j of E(i, image)) / copies "
                 "— the property's lattice energy per molecule with every physical pair counted once (the halving was missing: defect D3a, fixed: the same p2 crystal scored -42.06 or -20.14). "
                 "LJShape2::energy is the sum over particle pairs; LJ2::energy the shifted truncated 12-6 law of |p-q|^2 (C13); periodic_images yields exactly the translates; positions are wrapped into one cell. "
-                "Representation independence additionally needs E(a,b) = E(b,a): refuted for unlike particles (known finding D9).",
+                "Representation independence additionally needs E(a,b) = E(b,a): refuted for unlike particles (known finding D9). 'Every pair within the cutoff' additionally needs 3 shells to reach the cutoff: "
+                "refuted for flat cells (known finding D3b: the shell count is the literal 3).",
     assumptions=_STATE_ASSUMPTIONS,
-    undecided=["the image range is a fixed 3 shells: pairs within the cutoff are missed once 3*min(a,b)*sin t < cutoff + 2R (D3b: no contract ties the shell count to the cutoff; no failing input constructed)",
+    undecided=[
                "convergence error of the truncated sum for the uncut potential", "invariance of the total under re-description of the crystal is argued from the formula, not proved as a two-state theorem"],
 )
 PROPS["C08"] = dict(
